@@ -445,8 +445,8 @@ pub fn run(ctx: &RunCtx) -> i32 {
     let cfg0 = LoopCfg { host: HostCfg::None, vhost: false, auth: false, hops: 1 };
     let cfg1 = LoopCfg { host: HostCfg::Single(L_DOMAIN.into()), vhost: true, auth: true, hops: 1 };
     let cfg2 = LoopCfg { host: HostCfg::None, vhost: false, auth: false, hops: 2 };
-    let n_random = ctx.tier.sz(320, 40_000);
-    let sys_reps = ctx.tier.sz(6, 80);
+    let n_random = ctx.tier.sz(1500, 40_000);
+    let sys_reps = ctx.tier.sz(16, 80);
     let mut total = par_run(ctx.workers, ops.len() as u64, |j, r| {
         let rt = new_runtime();
         let info = ops[j as usize];
@@ -504,7 +504,7 @@ pub fn run(ctx: &RunCtx) -> i32 {
         delays.extend(base - 5..=base + 5);
     }
     let mut g = Rng::new(derive_seed(ctx.seed, "C03/keepalive", 0));
-    for _ in 0..ctx.tier.sz(300, 30_000) {
+    for _ in 0..ctx.tier.sz(2000, 30_000) {
         delays.push(g.range(0, 1000) as u64);
     }
     let delays_ref = &delays;
